@@ -680,11 +680,13 @@ impl<'a> Parser<'a> {
 
         while let Some(mut attribute) = self.attribute() {
             attribute.order = attributes.len();
+            let name = attribute.name.clone();
             if attributes
-                .insert(attribute.name.source.clone(), attribute)
+                .insert(name.source.clone(), attribute)
                 .is_some()
             {
-                self.error(&format!("Duplicate attribute '{}'.", self.previous.source));
+                let message = format!("Duplicate attribute '{}'.", name.source);
+                self.error_at(name, &message);
                 break;
             }
 
